@@ -141,6 +141,9 @@ def units(w):
     # obligations switched on)
     from .c02_parser import parser_units as grammar_units
     U.extend([u for u in grammar_units(w, "C20") if "parse_add_expr" in u.name or "parse_mul_expr" in u.name or "parse_rel_expr" in u.name])
+    # every position carries the file name given to *this* call: parse_script scans and parses its own arguments and keeps nothing
+    # between calls (unit of contracts/parserproof.py)
+    U.extend(u for u in parser_units(w, "C20") if u.name == "parser.py::parse_script")
     # errors raised inside module code name the module: the module text is scanned under the file name mod:<module> (the units of
     # C11 over the real NodeRequire.evaluate with an abstract file system; the obligation that matters here is the parse name)
     from . import c11
@@ -256,6 +259,23 @@ def bounded(tier, seed):
             fn = getattr(obs, "filename", None)
             if got not in fline or fn != "prog.ckl":
                 fails.append({"id": f"bounded:error-line[{' '.join(toks[faults[0]:faults[0] + 2])}]", "input": repr(src), "observed": f"{obs}", "expected": f"prog.ckl line {fline}"})
+    # the same text under different file names, in one process: every error names the file of its own call
+    for src, line in (("def a = 1;\nundefined_name + 1", 2), ("def f(x) do\n  error 'inside';\nend;\nf(1)", 2), ("1 +", 1)):
+        for reuse in (False, True):
+            K_ = interp.Interpreter(True, False)
+            for fname in ("alpha.ckl", "beta.ckl", "alpha.ckl", "gamma.ckl"):
+                ev += 1
+                J = K_ if reuse else interp.Interpreter(True, False)
+                try:
+                    J.interpret(src, fname)
+                    obs, trace = None, []
+                except errors.CklRuntimeError as e:
+                    obs, trace = e.pos, list(e.stacktrace)
+                except errors.CklSyntaxError as e:
+                    obs, trace = e.pos, []
+                if getattr(obs, "filename", None) != fname or any((".ckl:" in str(t)) and (fname not in str(t)) for t in trace):
+                    fails.append({"id": "bounded:error-names-the-file-of-its-own-call", "input": f"{src!r} interpreted as {fname} after the same text under other names",
+                                  "observed": f"{obs} trace={[str(t) for t in trace]}", "expected": f"{fname} line {line}"})
     # errors raised inside module code name the module and the line within the module, however the module was imported
     import os
     import shutil
